@@ -63,6 +63,10 @@ class Ecs:
             (R(r'EventReader::<.*>::iter$|EventReader::<.*>::read$'), self.ev_iter),
             (R(r'as (mina::)?Timeline>::(update|start_with|duration|delay)$'), self.tl.handler),
             (R(r'HashMap::<.*>::get::<'), self.map_get),
+            (R(r'HashMap::<.*>::new$'), lambda m, c, a: Opaque('hashmap', entries={})),
+            (R(r'HashMap::<.*>::insert$'), self.map_insert),
+            (R(r'HashMap::<.*>::entry$'), self.map_entry),
+            (R(r'Entry::<.*>::(or_insert_with|or_insert|or_default)'), self.entry_or_insert),
             (R(r'as PartialEq>::eq$'), self.eq_keys),
         ]
 
@@ -125,6 +129,35 @@ class Ecs:
         if kd in mp.entries:
             return some(Ref(mp.entries[kd], 0))
         return none()
+
+    def _key_d(self, m, key):
+        while isinstance(key, Ref): key = m.load(key)
+        kd = key.d if isinstance(key.d, int) else concrete(key.d)
+        if kd is None: raise Unsupported('HashMap with a symbolic key')
+        return kd
+
+    def map_insert(self, m, callee, args):
+        mp = m.load(args[0])
+        if not (isinstance(mp, Opaque) and mp.kind == 'hashmap'): return NotImplemented
+        kd = self._key_d(m, args[1])
+        old = mp.entries.get(kd)
+        mp.entries[kd] = Cell(args[2])
+        return some(old.v) if old is not None else none()
+
+    def map_entry(self, m, callee, args):
+        mp = m.load(args[0])
+        if not (isinstance(mp, Opaque) and mp.kind == 'hashmap'): return NotImplemented
+        return Opaque('hm_entry', map=mp, kd=self._key_d(m, args[1]))
+
+    def entry_or_insert(self, m, callee, args):
+        e = args[0]
+        if not (isinstance(e, Opaque) and e.kind == 'hm_entry'): return NotImplemented
+        if e.kd not in e.map.entries:
+            if 'or_insert_with' in callee: v = m.call_value(args[1], [])
+            elif 'or_default' in callee: raise Unsupported('Entry::or_default')
+            else: v = args[1]
+            e.map.entries[e.kd] = Cell(v)
+        return Ref(e.map.entries[e.kd], 0)
 
     def eq_keys(self, m, callee, args):
         return NotImplemented
